@@ -55,6 +55,50 @@ UNARY = {"sin": sp.sin, "cos": sp.cos, "tan": sp.tan, "arcsin": sp.asin, "arccos
 IDENTITY_FUNCS = {"array", "asarray", "atleast_1d", "asanyarray", "ascontiguousarray", "float64", "float", "float32",
                   "squeeze", "ravel", "copy", "double"}
 IDENTITY_METHODS = {"astype", "copy", "ravel", "squeeze", "view", "flatten", "item"}
+# array conversions: an explicitly stated element type decides whether the conversion keeps the value
+KEEP_DT = {"f8", "float64", "float", "double", "d", "<f8", ">f8", "=f8", "float_", "longdouble", "f16", "g", "complex128", "c16", "complex",
+           "object", "O"}
+NARROW_DT = {"f4", "float32", "f2", "float16", "single", "half", "<f4", ">f4", "=f4", "e", "f"}
+INT_DT = {"i8", "i4", "i2", "i1", "u8", "u4", "u2", "u1", "int", "int64", "int32", "int16", "int8", "uint64", "uint32", "uint16", "uint8",
+          "intp", "uintp", "int_", "uint", "l", "q", "L", "Q", "i", "I", "long", "<i8", ">i8", "<i4", ">i4", "longlong", "ulonglong"}
+
+
+def _dtype_class(node):
+    """keep | narrow | int | unknown for the element type named by an ast node (None = no type stated = keep)"""
+    if node is None:
+        return "keep"
+    nm = None
+    if isinstance(node, ast.Constant) and isinstance(node.value, str):
+        nm = node.value
+    elif isinstance(node, ast.Name):
+        nm = node.id
+    elif isinstance(node, ast.Attribute):
+        nm = node.attr
+    if nm in KEEP_DT:
+        return "keep"
+    if nm in NARROW_DT:
+        return "narrow"
+    if nm in INT_DT:
+        return "int"
+    return "unknown"
+
+
+def _convert(x, cls):
+    """value of x after conversion to an element type of class cls"""
+    if cls == "narrow":
+        return _map(lambda e: sp.Function("F32")(e), x) if _is_expr(x) or isinstance(x, (list, tuple)) else x
+    if cls == "int":
+        def f(e):
+            e = _as_expr(e)
+            if e.is_integer or e.func in (sp.floor, sp.ceiling) or getattr(e.func, "__name__", "") in ("INT", "SEARCHSORTED", "ARANGE", "LEN", "ARGSORT"):
+                return e
+            if e.is_number:
+                return sp.Integer(int(e))
+            return sp.Function("INT")(e)
+        return _map(f, x) if _is_expr(x) or isinstance(x, (list, tuple)) else x
+    return x
+
+
 REDUCE = {"sum": "SUM", "mean": "MEAN", "std": "STD", "min": "MIN", "max": "MAX", "median": "MEDIAN", "var": "VAR", "cumsum": "CUMSUM"}
 
 
@@ -829,6 +873,11 @@ class Env:
                     self.assign(out, r, c)
                 return r
             if nm in IDENTITY_FUNCS and c.args:
+                if nm == "float32":
+                    return _convert(A(0), "narrow")
+                if nm in ("array", "asarray", "asanyarray", "ascontiguousarray"):
+                    dt = kwarg(c, "dtype") or (c.args[1] if len(c.args) >= 2 else None)
+                    return _convert(A(0), _dtype_class(dt))
                 return A(0)
             if nm in ("multiply", "add", "subtract", "divide", "power", "mod", "fmod"):
                 op = {"multiply": ast.Mult(), "add": ast.Add(), "subtract": ast.Sub(), "divide": ast.Div(), "power": ast.Pow(), "mod": ast.Mod(), "fmod": ast.Mod()}[nm]
@@ -987,6 +1036,9 @@ class Env:
                 if _is_matrix(rv) and nm == "transpose" and not c.args:
                     return _transpose(rv)
             if nm in IDENTITY_METHODS:
+                if nm == "astype":
+                    dt = c.args[0] if c.args else kwarg(c, "dtype")
+                    return _convert(self.ev(recv_node), _dtype_class(dt))
                 return self.ev(recv_node)
             if nm == "clip":
                 x = self.ev(recv_node)
